@@ -84,7 +84,7 @@ def level_segments(rnd, lvl):
         words = []
         for p in tail["items"]:
             k = {"one": 1, "opt": rnd.choice([0, 1]), "many": rnd.choice([0, 1, 2]),
-                 "some": rnd.choice([1, 2])}[p["arity"]]
+                 "some": rnd.choice([1, 2]), "last": rnd.choice([1, 2])}[p["arity"]]
             for _ in range(k):
                 words.append((p, value_for(rnd, p["vt"])))
         stricts = [w for w in words if w[0]["strict"] == "strict"]
